@@ -492,7 +492,7 @@ class C01(Check):
             redo = []
             for i in pending:
                 c = cur[i]
-                if not c or not c[0].startswith('@') or 'multimap' not in c[0].split():
+                if not c or not c[0].startswith('@') or 'multimap' not in c[0][1:].split():
                     continue
                 k = first_diff(spec_obs[i], impl_obs[i])
                 ops = c[1:]
